@@ -75,7 +75,7 @@ def gen_target(rng, ctl=False):
 
 HNAMES = [b"X-A", b"x-a", b"X-a", b"Accept", b"accept", b"Cookie", b"X.Dot", b"X~T", b"User-Agent", b"Referer",
           b"X-Long-Header-Name-With-Many-Parts", b"Host", b"X_Under", b"If-None-Match", b"Content-Type", b"X-1",
-          b"X-Under", b"x_under", b"X_A"]
+          b"X-Under", b"x_under", b"X_A", b"Content_Type", b"Content_Length", b"CONTENT_TYPE", b"Content-type"]
 
 
 def gen_headers(rng):
@@ -131,12 +131,15 @@ def make_case(rng):
                             script_hdr = pre
                 except UnicodeDecodeError:
                     pass
+    if body is not None and rng.random() < 0.3:
+        hdrs.insert(rng.randint(0, len(hdrs)), [b"Expect", rng.choice([b"100-continue", b"100-Continue"])])
     # who is talking: a SCRIPT_NAME header counts only from a trusted peer; the same worker serves both kinds of peer
     hdr_from_untrusted = script_hdr is not None and rng.random() < 0.3
     return {"target": target.hex(), "method": method, "version": version,
             "headers": [[n.hex(), v.hex()] for n, v in hdrs], "body": None if body is None else body.hex(),
             "script_env": script_env, "script_hdr": None if script_hdr is None else script_hdr.hex(),
             "hdr_from_untrusted": hdr_from_untrusted, "header_map": "dangerous" if rng.random() < 0.2 else "drop",
+            "client_gone": rng.random() < 0.08,
             "kind": rng.choice(["sync", "gthread", "async"]), "ctl": ctl}
 
 
@@ -236,7 +239,12 @@ def run_case(run, e2, harnesses, case):
     else:
         os.environ.pop("SCRIPT_NAME", None)
     try:
-        out = h.connection(script, app, peer=TRUSTED if case["script_hdr"] is not None and not case.get("hdr_from_untrusted") else UNTRUSTED)
+        out = h.connection(script, app, peer=TRUSTED if case["script_hdr"] is not None and not case.get("hdr_from_untrusted") else UNTRUSTED,
+                           mode="close" if case.get("client_gone") else "halfclose")
+        if case.get("client_gone"):
+            # the client sent everything and left: whatever the server could not write any more, what it hands to the
+            # application (if it still calls it) is the whole request
+            run.count("client_gone_cases")
     finally:
         os.environ.pop("SCRIPT_NAME", None)
     verdicts = []
@@ -270,9 +278,80 @@ def run_case(run, e2, harnesses, case):
     return verdicts, out
 
 
+def live_scenario(run, wc):
+    """SCRIPT_NAME configured through raw_env on a running master: present, still present after a reload, gone after the reload
+    that removes it - the split of the path follows the configuration in force."""
+    import signal
+    import time
+    from vlib import e4_live as e4
+    from checks.c08 import LIVE_ENV_APP
+    v = []
+    settings = {"raw_env": ["SCRIPT_NAME=/shop"], "graceful_timeout": 2, "timeout": 30}
+    if wc == "gthread":
+        settings["threads"] = 2
+    srv = e4.Server("c15", worker_class=wc, workers=2, settings=settings, app_source=e4.APP_SOURCE + LIVE_ENV_APP)
+
+    def ask(path):
+        r = e4.request(srv.addr, path, timeout=6)
+        if r["outcome"] != "ok":
+            return r["outcome"]
+        try:
+            return json.loads(e4.body_of(r["data"])[:-4])
+        except ValueError:
+            return "unparsable"
+
+    def reload_and_wait():
+        before = set(srv.worker_pids())
+        srv.signal(signal.SIGHUP)
+        t0 = time.monotonic()
+        while time.monotonic() - t0 < 12 and (set(srv.worker_pids()) & before or len(srv.worker_pids()) != 2):
+            time.sleep(0.1)
+        srv.wait_workers(2, 10)
+    try:
+        srv.start()
+        if not srv.wait_workers(2, 25) or not srv.wait_listening(5):
+            return v, "server did not boot"
+        steps = [("start", True), ("reload-unchanged", True), ("reload-removing-it", False), ("reload-again", False),
+                 ("reload-restoring-it", True)]
+        for label, configured in steps:
+            if label == "reload-removing-it":
+                srv.write_conf(raw_env=[])
+            if label == "reload-restoring-it":
+                srv.write_conf(raw_env=["SCRIPT_NAME=/shop"])
+            if label != "start":
+                reload_and_wait()
+            e = ask("/shop/cart%20a")
+            if not isinstance(e, dict):
+                # (a path outside a configured SCRIPT_NAME is refused by gunicorn: not the case here)
+                v.append(("live/request-under-script-name-not-served", "%s (%s): GET /shop/cart%%20a -> %s" % (wc, label, e)))
+                break
+            want = {"SCRIPT_NAME": "/shop", "PATH_INFO": "/cart a"} if configured else {"SCRIPT_NAME": "", "PATH_INFO": "/shop/cart a"}
+            got = {k2: e[k2] for k2 in want}
+            run.count("live_script_name_checks")
+            if got != want:
+                v.append(("live/environ-differs/SCRIPT_NAME-after-reload", "%s, %s: raw_env %s SCRIPT_NAME=/shop, the application saw %r" % (
+                    wc, label, "configures" if configured else "no longer configures", got)))
+                break
+        return v, None
+    finally:
+        srv.cleanup()
+
+
 def shard(sh):
     from vlib import e2_worker as e2
     run = Run(PROP, sh.get("tier", "quick"), sh["seed"], "exploration", RULE)
+    if sh.get("kind") == "live":
+        reason = None
+        for attempt in range(2):
+            v, reason = live_scenario(run, sh["class"])
+            if reason is None or v:
+                break
+        run.case(("live", sh["class"]))
+        for mech, summary in v:
+            run.violation(mech, summary, {"live": sh["class"]})
+        if reason is not None and not v:
+            run.inconclusive_because("live scenario (%s): %s" % (sh["class"], reason))
+        return run
     rng = rng_for(sh["seed"], "c15", sh["sub"])
     hs = {}
     try:
@@ -297,9 +376,11 @@ def main(tier, seed):
     run = Run(PROP, tier, seed, "exploration", RULE)
     run.require("accepted", "form/origin", "form/absolute", "form/asterisk", "with_script_name", "repeated_header_joined",
                 "script_name_header_from_untrusted_peer", "script_name_not_a_prefix_cases", "header_map_dangerous_cases",
-                "two_spellings_one_variable")
+                "two_spellings_one_variable", "client_gone_cases", "live_script_name_checks")
     q = tier == "quick"
     shards = [{"n": 1500 if q else 20000, "sub": i, "seed": seed, "tier": tier} for i in range(32 if q else 64)]
+    classes = ["sync", "gthread", "gevent", "eventlet"]
+    shards = [{"kind": "live", "class": c, "seed": seed, "tier": tier, "sub": 0} for c in (classes if not q else [classes[(seed + 1) % 4]])] + shards
     run.assumptions = [
         "reference mapping = vlib/ref_cgi.py; malformed percent escapes stay literal; fragment (#...) is not part of path or query",
         "not judged: repeated Content-Type, authority-form / relative targets, targets whose raw path does not start with the configured SCRIPT_NAME, "
@@ -314,6 +395,14 @@ def replay(path):
     with open(path) as f:
         rec = json.load(f)
     run = Run(PROP, "quick", 0, "exploration", RULE)
+    if "live" in rec["case"]:
+        v, reason = live_scenario(run, rec["case"]["live"])
+        print("inconclusive:", reason)
+        for mech, s in v:
+            print("VIOLATION property=%s replay=%s\n  %s %s" % (PROP, path, mech, s))
+        if not v:
+            print("no violation on replay")
+        return 1 if v else 0
     hs = {}
     try:
         v, out = run_case(run, e2, hs, rec["case"])
